@@ -86,6 +86,8 @@ structure S where
 def emit (e : Ev) (s : S) : S := { s with evs := e :: s.evs }
 
 def setCl (f : Client → Client) (s : S) : S := { s with cl := f s.cl }
+def setNextFd (k : Nat) (s : S) : S := { s with nextFd := k }
+def bumpCalls (s : S) : S := { s with calls := s.calls + 1 }
 
 /-! ### libc calls: effect + scripted result -/
 
@@ -113,7 +115,7 @@ def doOpen (p : Path) (m : Mode) (s : S) : Option Nat × S :=
   | some r =>
     if r.startsWith "#" then
       let k := s.nextFd + 1
-      (some k, emit (.fs (.open p m) s!"#{k}") { s with nextFd := k })
+      (some k, emit (.got k) (emit (.fs (.open p m) s!"#{k}") (setNextFd k s)))
     else (none, emit (.envBad "open") (emit (.fs (.open p m) "?") s))
   | none => (none, emit (.envBad "open") (emit (.fs (.open p m) "?") s))
 
@@ -259,7 +261,7 @@ def closeClient (s : S) : S :=
 /-- one call of getFileTransferPermission -/
 def consult (f : Nat → Nat) (s : S) : Bool × S :=
   let a := f s.calls
-  (a == 1, emit (.q a) { s with calls := s.calls + 1 })
+  (a == 1, emit (.q a) (bumpCalls s))
 
 /-- FILEXFER_ALLOWED_OR_CLOSE_AND_RETURN: `(cb != NULL && cb(cl) != TRUE) || permit != TRUE`
 => log, rfbCloseClient, return -/
@@ -327,9 +329,11 @@ def readBuffer (cfg : Cfg) (length : Nat) (s : S) : Option Bytes × S :=
   if !ok then (none, s)
   else if length > C19.intMax then (none, closeClient s)
   else if length = 0 then (none, s)                         -- buffer stays NULL: callers give up
-  else match readExact length s with
-    | (some b, s) => (some b, s)
-    | (none, s) => (none, closeClient s)
+  else
+    let (ob, s) := readExact length s
+    match ob with
+    | some b => (some b, s)
+    | none => (none, closeClient s)
 
 def be16 (a b : UInt8) : Nat := a.toNat * 256 + b.toNat
 def be32 (a b c d : UInt8) : Nat := ((a.toNat * 256 + b.toNat) * 256 + c.toNat) * 256 + d.toNat
@@ -342,34 +346,40 @@ def dirLoop (cfg : Cfg) (path : Path) : List Path → S → S
     let s := emit (.fs .closedir "") s
     (sendMsg cfg 2 0 0 0 (.raw []) s).2                      -- end of the listing
   | name :: rest, s =>
-    match doStat (path ++ 47 :: name) s with
-    | (.fail, s) => dirLoop cfg path rest s
-    | (r, s) =>
-      let (attr, size) : Nat × Nat := match r with
-        | .dir n => (C19.attrDirectory, n % 4294967296)
-        | .file n => (C19.attrNormal, n % 4294967296)
-        | .other n => (C19.attrNormal, n % 4294967296)
-        | .fail => (0, 0)
+    let (st, s) := doStat (path ++ 47 :: name) s
+    match st with
+    | .fail => dirLoop cfg path rest s
+    | r =>
+      let attr : Nat := match r with
+        | .dir _ => C19.attrDirectory
+        | _ => C19.attrNormal
+      let size : Nat := match r with
+        | .dir n => n % 4294967296
+        | .file n => n % 4294967296
+        | .other n => n % 4294967296
+        | .fail => 0
       -- hidden files are not shown, ".." is
       if name = [46, 46] ∨ name.head? ≠ some 46 then
-        match sendMsg cfg 2 1 0 (C19.findDataFixed + name.length) (.entry attr size name) s with
-        | (true, s) => dirLoop cfg path rest s
-        | (false, s) => emit (.fs .closedir "") s
+        let (ok, s) := sendMsg cfg 2 1 0 (C19.findDataFixed + name.length) (.entry attr size name) s
+        if ok then dirLoop cfg path rest s
+        else emit (.fs .closedir "") s
       else dirLoop cfg path rest s
 
 def sendDirContent (cfg : Cfg) (length : Nat) (buffer : Bytes) (s : S) : S :=
   let (ok, s) := macroCheck cfg s
   if !ok then s else
-  match translate cfg (cstr buffer) C19.dirPathSize s with
-  | (none, s) => s
-  | (some path, s) =>
-    match doOpendir path s with
-    | (none, s) => (sendMsg cfg 2 1 0 0 (.raw []) s).2
-    | (some names, s) =>
+  let (op, s) := translate cfg (cstr buffer) C19.dirPathSize s
+  match op with
+  | none => s
+  | some path =>
+    let (od, s) := doOpendir path s
+    match od with
+    | none => (sendMsg cfg 2 1 0 0 (.raw []) s).2
+    | some names =>
       -- send back the path name
-      match sendMsg cfg 2 1 0 length (.raw buffer) s with
-      | (false, s) => emit (.fs .closedir "") s                -- (closedir: part of the fd-leak fix)
-      | (true, s) => dirLoop cfg path names s
+      let (ok, s) := sendMsg cfg 2 1 0 length (.raw buffer) s
+      if ok then dirLoop cfg path names s
+      else emit (.fs .closedir "") s                          -- (closedir: part of the fd-leak fix)
 
 /-! ### rfbSendFileTransferChunk -/
 
@@ -387,21 +397,23 @@ def chunk (cfg : Cfg) (s : S) : Bool × S :=
     else if !s.cl.isOpen then (false, s)
     else
       -- the socket is writable (assumption): read one block
-      match doRead fd s with
-      | (.data 0 _, s) =>
+      let (rr, s) := doRead fd s
+      match rr with
+      | .data 0 _ =>
         let (r, s) := sendMsg cfg 6 0 0 0 (.raw []) s
         (r, endTransfer (doClose false fd s))
-      | (.fail, s) =>
+      | .fail =>
         let (r, s) := sendMsg cfg 7 0 0 0 (.raw []) s
         (r, endTransfer (doClose false fd s))
-      | (.data n h, s) =>
+      | .data n h =>
         if !s.cl.xf.compression then sendMsg cfg 5 0 0 n (.digest n h) s
         else
-          match doCompress n s with
-          | (some m, s) =>
+          let (mm, s) := doCompress n s
+          match mm with
+          | some m =>
             if m < n then sendMsg cfg 5 0 1 m (.zdigest n h) s
             else sendMsg cfg 5 0 0 n (.digest n h) s
-          | (none, s) => sendMsg cfg 5 0 0 n (.digest n h) s
+          | none => sendMsg cfg 5 0 0 n (.digest n h) s
 
 /-! ### rfbProcessFileTransfer, one function per content type -/
 
@@ -411,27 +423,35 @@ def closeOld (s : S) : S :=
   | some k => doClose false k s
   | none => s
 
+/-- open(O_RDONLY) + fstat of rfbFileTransferRequest: the descriptor (none: open or fstat failed,
+descriptor closed again) and st_size -/
+def openForRead (fname : Path) (s : S) : (Option Nat × Nat) × S :=
+  let (fd, s) := doOpen fname .rd s
+  match fd with
+  | none => ((none, 0), s)
+  | some k =>
+    let (sz, s) := doFstat k s
+    match sz with
+    | some n => ((some k, n), s)
+    | none => ((none, 0), doClose false k s)
+
 def ftRequest (cfg : Cfg) (size length : Nat) (s : S) : S :=
-  match readBuffer cfg length s with
-  | (none, s) => s
-  | (some buffer, s) =>
-    match translate cfg (cstr buffer) C19.filename1Size s with
-    | (none, s) => s
-    | (some fname, s) =>
+  let (ob, s) := readBuffer cfg length s
+  match ob with
+  | none => s
+  | some buffer =>
+    let (op, s) := translate cfg (cstr buffer) C19.filename1Size s
+    match op with
+    | none => s
+    | some fname =>
       let s := closeOld s
-      let (fd, s) := doOpen fname .rd s
-      -- fstat; on success the time stamp is appended to the name
-      let (fd, stSize, s) : Option Nat × Nat × S := match fd with
-        | none => (none, 0, s)
-        | some k =>
-          match doFstat k s with
-          | (some n, s) => (some k, n, s)
-          | (none, s) => (none, 0, doClose false k s)
-      let s := setCl (fun c => { c with xf := { c.xf with fd := fd, compression := (size == 1) } }) s
-      match fd with
+      let (r, s) := openForRead fname s
+      let s := setCl (fun c => { c with xf := { c.xf with fd := r.1, compression := (size == 1) } }) s
+      match r.1 with
       | none => (sendMsg cfg 4 0 u32max length (.raw buffer) s).2
       | some _ =>
-        let (_, s) := sendMsg cfg 4 0 (stSize % 4294967296) ((cstr buffer).length + 17) (.hdr (cstr buffer)) s
+        -- on success the time stamp is appended to the name
+        let (_, s) := sendMsg cfg 4 0 (r.2 % 4294967296) ((cstr buffer).length + 17) (.hdr (cstr buffer)) s
         let s := setCl (fun c => { c with xf := { c.xf with receiving := false, sending := false } }) s
         -- rfbWriteExact(sizeHtmp): part of the `.hdr` wire event; fails iff the client was just closed
         if s.cl.isOpen then s else closeClient s
@@ -446,20 +466,34 @@ def ftHeader (cfg : Cfg) (size : Nat) (s : S) : S :=
     let s := setCl (fun c => { c with xf := { c.xf with sending := true } }) s
     (chunk cfg s).2
 
+/-- the file name of an rfbFileTransferOffer: the payload up to its last ',' (file time cut off) -/
+def offerName (name : Path) : Path :=
+  match splitLast 44 name with
+  | some (bef, _) => bef
+  | none => name
+
+/-- the buffer echoed in rfbFileAcceptHeader: the ',' has been overwritten with NUL -/
+def offerEcho (buffer : Bytes) : Bytes :=
+  match splitLast 44 (cstr buffer) with
+  | some (bef, _) => buffer.set bef.length 0
+  | none => buffer
+
 def ftOffer (cfg : Cfg) (length : Nat) (s : S) : S :=
-  match readBuffer cfg length s with
-  | (none, s) => s
-  | (some buffer, s) =>
+  let (ob, s) := readBuffer cfg length s
+  match ob with
+  | none => s
+  | some buffer =>
     -- strrchr(buffer, ','): the file time is cut off (the ',' becomes NUL in the echoed buffer)
-    let (name, echo) : Path × Bytes := match splitLast 44 (cstr buffer) with
-      | some (bef, _) => (bef, buffer.set bef.length 0)
-      | none => (cstr buffer, buffer)
-    match readExact 4 s with                                  -- sizeHtmp
-    | (none, s) => closeClient s
-    | (some _, s) =>
-      match translate cfg name C19.filename1Size s with
-      | (none, s) => s
-      | (some fname, s) =>
+    let name := offerName (cstr buffer)
+    let echo := offerEcho buffer
+    let (o4, s) := readExact 4 s                              -- sizeHtmp
+    match o4 with
+    | none => closeClient s
+    | some _ =>
+      let (op, s) := translate cfg name C19.filename1Size s
+      match op with
+      | none => s
+      | some fname =>
         let s := closeOld s
         let (fd, s) := doOpen fname .wrct s
         let s := setCl (fun c => { c with xf := { c.xf with fd := fd } }) s
@@ -468,18 +502,24 @@ def ftOffer (cfg : Cfg) (length : Nat) (s : S) : S :=
         | none => s
         | some _ => setCl (fun c => { c with xf := { c.xf with receiving := true, sending := false } }) s
 
+/-- the write of rfbFilePacket: plain, or after uncompress; `none` = retval -1 -/
+def packetWrite (fd size length : Nat) (buffer : Bytes) (s : S) : Option Nat × S :=
+  if size = 0 then doWrite fd length (fnvStr buffer) s
+  else
+    let (u, s) := doUncompress length s
+    match u with
+    | some mh => doWrite fd mh.1 mh.2 s
+    | none => (none, s)
+
 def ftPacket (cfg : Cfg) (size length : Nat) (s : S) : S :=
-  match readBuffer cfg length s with
-  | (none, s) => s
-  | (some buffer, s) =>
+  let (ob, s) := readBuffer cfg length s
+  match ob with
+  | none => s
+  | some buffer =>
     match s.cl.xf.fd with
     | none => s
     | some fd =>
-      let (ret, s) : Option Nat × S :=
-        if size = 0 then doWrite fd length (fnvStr buffer) s
-        else match doUncompress length s with
-          | (some (m, h), s) => doWrite fd m h s
-          | (none, s) => (none, s)
+      let (ret, s) := packetWrite fd size length buffer s
       match ret with
       | some _ => s
       | none => endTransfer (doClose false fd s)
@@ -504,35 +544,45 @@ def ftAbort (cfg : Cfg) (cp : Nat) (s : S) : S :=
         if cfg.permit then (sendMsg cfg 14 0 1 0 (.raw []) s).2
         else (sendMsg cfg 14 0 u32max 0 (.raw []) s).2
 
+/-- rfbCFileDelete: stat, then rmdir or unlink -/
+def deletePath (p : Path) (s : S) : Bool × S :=
+  let (st, s) := doStat p s
+  match st with
+  | .fail => (false, s)
+  | .dir _ => doSimple false (.rmdir p) s
+  | _ => doSimple false (.unlink p) s
+
 def ftCommand (cfg : Cfg) (cp length : Nat) (s : S) : S :=
-  match readBuffer cfg length s with
-  | (none, s) => s
-  | (some buffer, s) =>
+  let (ob, s) := readBuffer cfg length s
+  match ob with
+  | none => s
+  | some buffer =>
     if cp = 1 then                                            -- rfbCDirCreate
-      match translate cfg (cstr buffer) C19.filename1Size s with
-      | (none, s) => s
-      | (some p, s) =>
+      let (op, s) := translate cfg (cstr buffer) C19.filename1Size s
+      match op with
+      | none => s
+      | some p =>
         let (ok, s) := doSimple false (.mkdir p) s
         (sendMsg cfg 11 4 (if ok then 0 else u32max) length (.raw buffer) s).2
     else if cp = 4 then                                       -- rfbCFileDelete
-      match translate cfg (cstr buffer) C19.filename1Size s with
-      | (none, s) => s
-      | (some p, s) =>
-        let (ok, s) : Bool × S := match doStat p s with
-          | (.fail, s) => (false, s)
-          | (.dir _, s) => doSimple false (.rmdir p) s
-          | (_, s) => doSimple false (.unlink p) s
+      let (op, s) := translate cfg (cstr buffer) C19.filename1Size s
+      match op with
+      | none => s
+      | some p =>
+        let (ok, s) := deletePath p s
         (sendMsg cfg 11 7 (if ok then 0 else u32max) length (.raw buffer) s).2
     else if cp = 5 then                                       -- rfbCFileRename "old*new"
       match splitLast 42 (cstr buffer) with
       | none => s
       | some (a, b) =>
-        match translate cfg a C19.filename1Size s with
-        | (none, s) => s
-        | (some pa, s) =>
-          match translate cfg b C19.filename2Size s with
-          | (none, s) => s
-          | (some pb, s) =>
+        let (opa, s) := translate cfg a C19.filename1Size s
+        match opa with
+        | none => s
+        | some pa =>
+          let (opb, s) := translate cfg b C19.filename2Size s
+          match opb with
+          | none => s
+          | some pb =>
             let (ok, s) := doSimple false (.rename pa pb) s
             (sendMsg cfg 11 8 (if ok then 0 else u32max) length (.raw buffer) s).2
     else s
@@ -545,9 +595,10 @@ def processFT (cfg : Cfg) (ct cp size length : Nat) (s : S) : S :=
   | 1 =>                                                      -- rfbDirContentRequest
     if cp = 2 then (sendMsg cfg 2 3 0 5 (.raw [67, 58, 108, 0, 0]) s).2     -- drives list "C:l"
     else if cp = 1 then
-      match readBuffer cfg length s with
-      | (none, s) => s
-      | (some buffer, s) => sendDirContent cfg length buffer s
+      let (ob, s) := readBuffer cfg length s
+      match ob with
+      | none => s
+      | some buffer => sendDirContent cfg length buffer s
     else s
   | 3 => ftRequest cfg size length s
   | 4 => ftHeader cfg size s
@@ -573,6 +624,9 @@ def convertPath (root : Path) (p : Path) : Option Path :=
 
 def setTight (f : Tight → Tight) (s : S) : S :=
   setCl (fun c => { c with tight := c.tight.map f }) s
+/-- update the upload / the download half of the extension's client data -/
+def setUp (f : TSide → TSide) (s : S) : S := setTight (fun t => { t with up := f t.up }) s
+def setDn (f : TSide → TSide) (s : S) : S := setTight (fun t => { t with dn := f t.dn }) s
 
 def lenErr : String := "Path length exceeds PATH_MAX (4096) bytes"
 
@@ -585,179 +639,217 @@ def tListLoop (path : Path) (withFiles : Bool) : List Path → List (Nat × Byte
     if name = [46] ∨ name = [46, 46] then tListLoop path withFiles rest acc s
     else
       let full := path ++ (if path.getLast? = some 47 then [] else [47]) ++ name
-      match doStat full s with
-      | (.fail, s) => tListLoop path withFiles rest acc s
-      | (.dir _, s) => tListLoop path withFiles rest ((u32max, name) :: acc) s
-      | (.file n, s) =>
+      let (st, s) := doStat full s
+      match st with
+      | .fail => tListLoop path withFiles rest acc s
+      | .dir _ => tListLoop path withFiles rest ((u32max, name) :: acc) s
+      | .file n =>
         tListLoop path withFiles rest (if withFiles then (n % 4294967296, name) :: acc else acc) s
-      | (.other n, s) =>
+      | .other n =>
         tListLoop path withFiles rest (if withFiles then (n % 4294967296, name) :: acc else acc) s
+
+/-- GetFileListResponseMsg on the converted path -/
+def tListDir (flags : Nat) (path : Path) (s : S) : S :=
+  let (od, s) := doOpendir path s
+  match od with
+  | none => twire (.tlist (flags ||| 128) []) s
+  | some names =>
+    let (ents, s) := tListLoop path ((flags &&& 16) = 0) names [] s
+    let s := emit (.fs .closedir "") s
+    twire (.tlist (flags &&& 240) ents) s
 
 /-- HandleFileListRequest -/
 def tList (cfg : Cfg) (s : S) : S :=
-  match readExact 3 s with
-  | (none, s) => closeClient s
-  | (some hdr, s) =>
+  let (oh, s) := readExact 3 s
+  match oh with
+  | none => closeClient s
+  | some hdr =>
     let flags := (hdr.getD 0 0).toNat
     let n := be16 (hdr.getD 1 0) (hdr.getD 2 0)
     if n = 0 ∨ n > C19.PATH_MAX - 1 then s
-    else match readExact n s with
-      | (none, s) => closeClient s
-      | (some raw, s) =>
+    else
+      let (oraw, s) := readExact n s
+      match oraw with
+      | none => closeClient s
+      | some raw =>
         match convertPath cfg.root (cstr raw) with
         | none => s
-        | some path =>
-          match doOpendir path s with
-          | (none, s) => twire (.tlist (flags ||| 128) []) s
-          | (some names, s) =>
-            let (ents, s) := tListLoop path ((flags &&& 16) = 0) names [] s
-            let s := emit (.fs .closedir "") s
-            twire (.tlist (flags &&& 240) ents) s
+        | some path => tListDir flags path s
 
 /-- Handle{Download,Upload}LengthError: the name size is 0 or larger than PATH_MAX-1.
 `(short)fNameSize` is negative from 32768 on, the calloc fails and nothing is read. -/
 def tLengthError (n : Nat) (w : Wire) (s : S) : S :=
   if n ≥ 32768 then s
-  else match readExact n s with
-    | (none, s) => closeClient s
-    | (some _, s) => twire w s
+  else
+    let (o, s) := readExact n s
+    match o with
+    | none => closeClient s
+    | some _ => twire w s
+
+def tDownloadEnd (fd : Nat) (w : Wire) (s : S) : S :=
+  let s := doClose false fd s
+  let s := setDn (fun d => { d with fd := none, inProgress := false }) s
+  twire w s
 
 /-- the body of RunFileDownloadThread, run to completion; `fuel` bounds the number of blocks -/
 def tDownloadLoop (fd : Nat) : Nat → S → S
   | 0, s => s
   | fuel + 1, s =>
-    match doRead fd s with
-    | (.data 0 _, s) =>
-      let s := doClose false fd s
-      let s := setTight (fun t => { t with dn := { t.dn with fd := none, inProgress := false } }) s
-      twire .tdataEnd s
-    | (.fail, s) =>
-      let s := doClose false fd s
-      let s := setTight (fun t => { t with dn := { t.dn with fd := none, inProgress := false } }) s
-      twire (.tfailed "Cannot open file, perhaps it is absent or is a directory") s
-    | (.data n h, s) => tDownloadLoop fd fuel (twire (.tdata n h) s)
+    let (rr, s) := doRead fd s
+    match rr with
+    | .data 0 _ => tDownloadEnd fd .tdataEnd s
+    | .fail => tDownloadEnd fd (.tfailed "Cannot open file, perhaps it is absent or is a directory") s
+    | .data n h => tDownloadLoop fd fuel (twire (.tdata n h) s)
+
+/-- the download "thread": open the file and send it -/
+def tDownloadRun (path : Path) (s : S) : S :=
+  match s.cl.tight with
+  | none => s
+  | some t =>
+    if !t.dn.inProgress ∧ t.dn.fd.isNone then
+      let (ofd, s) := doOpen path .rd s
+      match ofd with
+      | none => twire (.tfailed "Cannot open file, perhaps it is absent or is a directory") s
+      | some k =>
+        let s := setDn (fun d => { d with fd := some k, inProgress := true }) s
+        tDownloadLoop k (s.env.length + 1) s
+    else twire (.tfailed "An internal error on the server caused download failure") s
+
+/-- HandleFileDownload on the converted path: ChkFileDownloadErr, then the thread -/
+def tDownloadPath (path : Path) (s : S) : S :=
+  let s := setDn (fun d => { d with fName := path }) s
+  let (st, s) := doStat path s
+  match st with
+  | .file sz =>
+    if sz = 0 then twire .tdataEnd s
+    else tDownloadRun path (closeUndoneDownload false s)
+  | _ => twire (.tfailed "Cannot open file, perhaps it is absent or is not a regular file") s
 
 /-- HandleFileDownloadRequest -/
 def tDownload (cfg : Cfg) (s : S) : S :=
-  match readExact 7 s with
-  | (none, s) => closeClient s
-  | (some hdr, s) =>
+  let (oh, s) := readExact 7 s
+  match oh with
+  | none => closeClient s
+  | some hdr =>
     let n := be16 (hdr.getD 1 0) (hdr.getD 2 0)
     if n = 0 ∨ n > C19.PATH_MAX - 1 then tLengthError n (.tfailed lenErr) s
-    else match readExact n s with
-      | (none, s) => closeClient s
-      | (some raw, s) =>
+    else
+      let (oraw, s) := readExact n s
+      match oraw with
+      | none => closeClient s
+      | some raw =>
         match convertPath cfg.root (cstr raw) with
         | none =>
-          let s := setTight (fun t => { t with dn := { t.dn with fName := [] } }) s
+          let s := setDn (fun d => { d with fName := [] }) s
           twire (.tfailed lenErr) s
-        | some path =>
-          let s := setTight (fun t => { t with dn := { t.dn with fName := path } }) s
-          -- ChkFileDownloadErr
-          match doStat path s with
-          | (.file sz, s) =>
-            if sz = 0 then twire .tdataEnd s
-            else
-              let s := closeUndoneDownload false s
-              -- the "thread"
-              match s.cl.tight with
-              | none => s
-              | some t =>
-                if !t.dn.inProgress ∧ t.dn.fd.isNone then
-                  match doOpen path .rd s with
-                  | (none, s) => twire (.tfailed "Cannot open file, perhaps it is absent or is a directory") s
-                  | (some k, s) =>
-                    let s := setTight (fun t => { t with dn := { t.dn with fd := some k, inProgress := true } }) s
-                    tDownloadLoop k (s.env.length + 1) s
-                else twire (.tfailed "An internal error on the server caused download failure") s
-          | (_, s) => twire (.tfailed "Cannot open file, perhaps it is absent or is not a regular file") s
+        | some path => tDownloadPath path s
+
+/-- HandleFileUpload on the converted path (with the upload-fd fix: an open descriptor is closed,
+not dropped) -/
+def tUploadPath (path : Path) (s : S) : S :=
+  let s := match s.cl.tight.bind (·.up.fd) with
+    | some k => doClose false k s
+    | none => s
+  let s := setUp (fun _ => { fd := none, inProgress := false, fName := path }) s
+  let (ofd, s) := doOpen path .wrct s
+  match ofd with
+  | none => twire (.tcancel "Could not create file") s
+  | some k => setUp (fun u => { u with fd := some k, inProgress := true }) s
 
 /-- HandleFileUploadRequest -/
 def tUpload (cfg : Cfg) (s : S) : S :=
-  match readExact 7 s with
-  | (none, s) => closeClient s
-  | (some hdr, s) =>
+  let (oh, s) := readExact 7 s
+  match oh with
+  | none => closeClient s
+  | some hdr =>
     let n := be16 (hdr.getD 1 0) (hdr.getD 2 0)
     if n = 0 ∨ n > C19.PATH_MAX - 1 then tLengthError n (.tcancel lenErr) s
-    else match readExact n s with
-      | (none, s) => closeClient s
-      | (some raw, s) =>
+    else
+      let (oraw, s) := readExact n s
+      match oraw with
+      | none => closeClient s
+      | some raw =>
         match convertPath cfg.root (cstr raw) with
         | none =>
-          let s := setTight (fun t => { t with up := { t.up with fName := [] } }) s
+          let s := setUp (fun u => { u with fName := [] }) s
           twire (.tcancel lenErr) s
-        | some path =>
-          -- HandleFileUpload (with the upload-fd fix: an open descriptor is closed, not dropped)
-          let s := match s.cl.tight.bind (·.up.fd) with
-            | some k => doClose false k s
-            | none => s
-          let s := setTight (fun t => { t with up := { fd := none, inProgress := false, fName := path } }) s
-          match doOpen path .wrct s with
-          | (none, s) => twire (.tcancel "Could not create file") s
-          | (some k, s) => setTight (fun t => { t with up := { t.up with fd := some k, inProgress := true } }) s
+        | some path => tUploadPath path s
+
+/-- FileUpdateComplete -/
+def tUploadComplete (s : S) : S :=
+  match s.cl.tight with
+  | none => s
+  | some t =>
+    let (_, s) := doSimple false (.utime t.up.fName) s
+    match t.up.fd with
+    | some k =>
+      let s := doClose false k s
+      setUp (fun u => { u with fd := none, inProgress := false }) s
+    | none => s
+
+/-- ChkFileUploadWriteErr + HandleFileUploadWrite -/
+def tUploadWrite (comp : Nat) (buf : Bytes) (s : S) : S :=
+  match s.cl.tight with
+  | none => s
+  | some t =>
+    match t.up.fd with
+    | some k =>
+      let (r, s) := doWrite k comp (fnvStr buf) s
+      if r = some comp then s
+      else twire (.tcancel "Error writing file data") (closeUndoneUpload false s)
+    | none =>                                                 -- write(-1, ...) fails
+      twire (.tcancel "Error writing file data") (closeUndoneUpload false s)
 
 /-- HandleFileUploadDataRequest -/
 def tUploadData (s : S) : S :=
-  match readExact 5 s with
-  | (none, s) => closeClient s
-  | (some hdr, s) =>
+  let (oh, s) := readExact 5 s
+  match oh with
+  | none => closeClient s
+  | some hdr =>
     let level := (hdr.getD 0 0).toNat
     let real := be16 (hdr.getD 1 0) (hdr.getD 2 0)
     let comp := be16 (hdr.getD 3 0) (hdr.getD 4 0)
     if real = 0 ∧ comp = 0 then
-      match readExact 4 s with                                -- mTime
-      | (none, s) => closeClient s
-      | (some _, s) =>
-        -- FileUpdateComplete
-        match s.cl.tight with
-        | none => s
-        | some t =>
-          let (_, s) := doSimple false (.utime t.up.fName) s
-          match t.up.fd with
-          | some k =>
-            let s := doClose false k s
-            setTight (fun t => { t with up := { t.up with fd := none, inProgress := false } }) s
-          | none => s
-    else match readExact comp s with
-      | (none, s) => closeClient s
-      | (some buf, s) =>
+      let (om, s) := readExact 4 s                            -- mTime
+      match om with
+      | none => closeClient s
+      | some _ => tUploadComplete s
+    else
+      let (ob, s) := readExact comp s
+      match ob with
+      | none => closeClient s
+      | some buf =>
         if level ≠ 0 then
-          let s := twire (.tcancel "Server does not support data compression on upload") s
-          closeUndoneUpload false s
-        else
-          -- ChkFileUploadWriteErr
-          match s.cl.tight with
-          | none => s
-          | some t =>
-            let (r, s) : Option Nat × S := match t.up.fd with
-              | some k => doWrite k comp (fnvStr buf) s
-              | none => (none, s)                             -- write(-1, ...) fails
-            if r = some comp then s
-            else
-              let s := closeUndoneUpload false s
-              twire (.tcancel "Error writing file data") s
+          closeUndoneUpload false (twire (.tcancel "Server does not support data compression on upload") s)
+        else tUploadWrite comp buf s
 
 /-- HandleFileDownloadCancelRequest / HandleFileUploadFailedRequest -/
 def tReason (upload : Bool) (s : S) : S :=
-  match readExact 3 s with
-  | (none, s) => closeClient s
-  | (some hdr, s) =>
+  let (oh, s) := readExact 3 s
+  match oh with
+  | none => closeClient s
+  | some hdr =>
     let n := be16 (hdr.getD 1 0) (hdr.getD 2 0)
     if n = 0 then s
-    else match readExact n s with
-      | (none, s) => closeClient s
-      | (some _, s) => if upload then closeUndoneUpload false s else closeUndoneDownload false s
+    else
+      let (o, s) := readExact n s
+      match o with
+      | none => closeClient s
+      | some _ => if upload then closeUndoneUpload false s else closeUndoneDownload false s
 
 /-- HandleFileCreateDirRequest -/
 def tMkdir (cfg : Cfg) (s : S) : S :=
-  match readExact 3 s with
-  | (none, s) => closeClient s
-  | (some hdr, s) =>
+  let (oh, s) := readExact 3 s
+  match oh with
+  | none => closeClient s
+  | some hdr =>
     let n := be16 (hdr.getD 1 0) (hdr.getD 2 0)
     if n ≥ C19.PATH_MAX - 1 then closeClient s
-    else match readExact n s with
-      | (none, s) => closeClient s
-      | (some raw, s) =>
+    else
+      let (oraw, s) := readExact n s
+      match oraw with
+      | none => closeClient s
+      | some raw =>
         match convertPath cfg.root (cstr raw) with
         | none => s
         | some path => (doSimple false (.mkdir path) s).2
@@ -798,13 +890,15 @@ def stepMsg (cfg : Cfg) (s : S) : S :=
   | b :: _ =>
     if !isFtType b.toNat then emit (.nonft b.toNat) (setCl (fun c => { c with inbuf := [] }) s)
     else
-      match readExact 1 s with
-      | (none, s) => closeClient s
-      | (some _, s) =>
+      let (o1, s) := readExact 1 s
+      match o1 with
+      | none => closeClient s
+      | some _ =>
         if b.toNat = 7 then
-          match readExact 11 s with
-          | (none, s) => closeClient s
-          | (some h, s) =>
+          let (oh, s) := readExact 11 s
+          match oh with
+          | none => closeClient s
+          | some h =>
             processFT cfg (h.getD 0 0).toNat (h.getD 1 0).toNat
               (be32 (h.getD 3 0) (h.getD 4 0) (h.getD 5 0) (h.getD 6 0))
               (be32 (h.getD 7 0) (h.getD 8 0) (h.getD 9 0) (h.getD 10 0)) s
@@ -821,6 +915,33 @@ def reapClient (s : S) : S :=
 
 /-- rfbSendFileTransferChunk called from the event loop -/
 def chunkEntry (cfg : Cfg) (s : S) : Bool × S := chunk cfg (emit .start s)
+
+/-! ### sessions: any sequence of inputs to one connection -/
+
+/-- process client messages while input is pending (rfbProcessClientMessage is called as long as the
+socket is readable) -/
+def pump (cfg : Cfg) : Nat → S → S
+  | 0, s => s
+  | fuel + 1, s =>
+    if !s.cl.isOpen ∨ s.cl.inbuf.isEmpty then s else pump cfg fuel (stepMsg cfg s)
+
+inductive Input where
+  | bytes (b : Bytes)      -- the client sends these bytes
+  | chunk                  -- the event loop calls rfbSendFileTransferChunk
+  | gone                   -- the peer closes the connection
+  | reap                   -- the event loop tears down closed clients (rfbClientConnectionGone)
+  deriving DecidableEq, Repr
+
+def sessStep (cfg : Cfg) (s : S) : Input → S
+  | .bytes b =>
+    if s.cl.isOpen then
+      pump cfg (s.cl.inbuf.length + b.length + 1) (setCl (fun c => { c with inbuf := c.inbuf ++ b }) s)
+    else s
+  | .chunk => (chunkEntry cfg s).2
+  | .gone => if s.cl.isOpen then peerGone s else s
+  | .reap => if s.cl.isOpen then s else reapClient s
+
+def runSession (cfg : Cfg) (s : S) (inputs : List Input) : S := inputs.foldl (sessStep cfg) s
 
 /-- descriptors a client still holds -/
 def Client.fds (c : Client) : List Nat :=
